@@ -121,8 +121,9 @@ func storageDevs() []Dev {
 		{"other-release", `{"name":"zzz","version":7,"namespace":"elsewhere","info":{"status":"deployed"}}`},
 	}
 	for _, s := range shapes {
-		d = append(d, Dev{ID: "@body:json=" + s.n, File: "@body", Text: encodeBody(s.js), Core: true})
-		d = append(d, Dev{ID: "@body:rawjson=" + s.n, File: "@body", Text: b64([]byte(s.js)), Core: true})
+		quickPair := map[string]bool{"null": true, "emptyobj": true, "only-name": true, "info-null": true, "chart-null": true, "hooks-null-item": true, "version-string": true, "other-release": true}[s.n]
+		d = append(d, Dev{ID: "@body:json=" + s.n, File: "@body", Text: encodeBody(s.js), Core: quickPair})
+		d = append(d, Dev{ID: "@body:rawjson=" + s.n, File: "@body", Text: b64([]byte(s.js)), Core: false})
 	}
 	d = append(d, wholeDevs("@datakey", true,
 		"missing", "other",
@@ -315,13 +316,13 @@ func storageExec(e *env, fs fileset) []res {
 
 func newStorageEntry() *docEntry {
 	return &docEntry{
-		name:    "storage",
-		files:   storageFiles(),
-		devs:    storageDevs(),
-		trunc:   []string{"@body"},
-		exec:    storageExec,
-		pairAll: true,
-		maxK:    func(bool) int { return 2 },
-		floors:  []string{"storage:baseline-ok", "storage:all-ok", "storage:error:Get-deviated", "storage:error:Storage.Get", "storage:error:Delete-deviated"},
+		name:  "storage",
+		files: storageFiles(),
+		devs:  storageDevs(),
+		trunc: []string{"@body"},
+		exec:  storageExec,
+		// quick: pairs over the Core deviations; thorough: all pairs
+		maxK:   func(bool) int { return 2 },
+		floors: []string{"storage:baseline-ok", "storage:all-ok", "storage:error:Get-deviated", "storage:error:Storage.Get", "storage:error:Delete-deviated"},
 	}
 }
